@@ -80,7 +80,7 @@ fn c06_line_select1_law() {
     kani::cover!(p == 511, "last bit selected");
 }
 
-// @h props=C06,C04:t,C10 tier=quick family=K mem=6 timeout=1800 stubs=utils::select_in_word->contract(c17_select_in_word_law) role=bitvector.dataline.select0
+// @h props=C06,C04:t,C10:t tier=quick family=K mem=6 timeout=1800 stubs=utils::select_in_word->contract(c17_select_in_word_law) role=bitvector.dataline.select0
 // @bound all 2^512 lines, every k below the number of zeros: result p < 512, bit p clear, p - rank1(p) == k; select_in_word replaced by its contract
 // @funcs bitvector::DataLine::select0_unchecked, bitvector::DataLine::rank1_unchecked
 #[kani::proof]
